@@ -2,6 +2,7 @@ package cmd
 
 import (
 	"fmt"
+	"sort"
 	"strings"
 
 	"github.com/evolbioinfo/goalign/align"
@@ -152,12 +153,12 @@ Output file is an unaligned set of sequences in fasta.
 		fmt.Fprintf(logf, "SeqName\tBestRef\tStartPosition\tExtractedSequenceLength\tFirstStop\n")
 		phasedseqs := align.NewSeqBag(align.UNKNOWN)
 		phasedseqsaa := align.NewSeqBag(align.UNKNOWN)
-		for p := range phased {
-			if p.Err != nil {
-				err = p.Err
-				io.LogError(p.Err)
-				return
-			}
+		var results []align.PhasedSequence
+		if results, err = orderedPhased(phased, inseqs); err != nil {
+			io.LogError(err)
+			return
+		}
+		for _, p := range results {
 			if p.Removed {
 				fmt.Fprintf(logf, "%s\tN/A\tRemoved\tN/A\n", p.NtSeq.Name())
 			} else {
@@ -172,6 +173,27 @@ Output file is an unaligned set of sequences in fasta.
 
 		return
 	},
+}
+
+// orderedPhased collects the results of the phaser and returns them in the order
+// of the input sequences: the workers deliver them as they finish, an order that
+// depends on the number of threads and on scheduling
+func orderedPhased(phased chan align.PhasedSequence, inseqs align.SeqBag) (results []align.PhasedSequence, err error) {
+	for p := range phased {
+		if p.Err != nil {
+			err = p.Err
+			return
+		}
+		results = append(results, p)
+	}
+	rank := make(map[string]int)
+	for i, s := range inseqs.Sequences() {
+		rank[s.Name()] = i
+	}
+	sort.SliceStable(results, func(i, j int) bool {
+		return rank[results[i].NtSeq.Name()] < rank[results[j].NtSeq.Name()]
+	})
+	return
 }
 
 func init() {
